@@ -6,6 +6,7 @@ import (
 	"errors"
 	"fmt"
 	"io"
+	"math"
 	"math/rand"
 	"os"
 	"reflect"
@@ -338,6 +339,11 @@ func (d *probeDecor) Decor(s decor.Statistics) (string, int) {
 		d.r.rec(Event{"ev": "overlap", "d": d.name, "b": d.bar, "what": "Decor while EwmaUpdate is running"})
 	}
 	_ = d.lastN
+	if d.r.free && d.calls%3 == 1 {
+		// a decorator that takes its time keeps the bar's goroutine busy: calls from several clients queue up behind the
+		// frame and are then applied back to back, in the order they arrived
+		time.Sleep(300 * time.Microsecond)
+	}
 	need := 0
 	if n := len(d.spec.Needs); n > 0 {
 		need = d.spec.Needs[d.calls%n]
@@ -367,6 +373,18 @@ func (r *run) isDoneClosed() bool {
 	r.mu.Lock()
 	defer r.mu.Unlock()
 	return r.lsDone
+}
+
+// libPrio: the scenario's priorities are small numbers (the monitor's integers are 32 bit); +-2^30 stand for the ends
+// of the int range ("pin this bar to the bottom": BarPriority(math.MaxInt)), which is order-isomorphic.
+func libPrio(p int) int {
+	switch {
+	case p >= 1<<30:
+		return math.MaxInt
+	case p <= -(1 << 30):
+		return math.MinInt
+	}
+	return p
 }
 
 // userGate parks user code (a callback the library runs in a goroutine of its own) like a library gate, so that
@@ -761,7 +779,7 @@ func (r *run) exec(c, i int, op *Op) {
 			opts = append(opts, mpb.BarFillerTrim())
 		}
 		if op.Prio != nil {
-			opts = append(opts, mpb.BarPriority(*op.Prio))
+			opts = append(opts, mpb.BarPriority(libPrio(*op.Prio)))
 		}
 		if op.ID != nil {
 			opts = append(opts, mpb.BarID(*op.ID))
@@ -844,9 +862,9 @@ func (r *run) exec(c, i int, op *Op) {
 	case "prio":
 		r.rec(inv)
 		if op.Flag || op.N%2 == 0 {
-			r.p.UpdateBarPriority(bar, int(op.N), op.Flag)
+			r.p.UpdateBarPriority(bar, libPrio(int(op.N)), op.Flag)
 		} else {
-			bar.SetPriority(int(op.N)) // documented as the immediate flavour of the same call
+			bar.SetPriority(libPrio(int(op.N))) // documented as the immediate flavour of the same call
 		}
 	case "get":
 		r.rec(inv)
@@ -870,8 +888,16 @@ func (r *run) exec(c, i int, op *Op) {
 	case "write":
 		inv["line"] = op.Line
 		ret["line"] = op.Line
+		more := op.More
+		if more == nil {
+			more = []string{}
+		}
+		inv["more"] = more
 		r.rec(inv)
 		parts := []string{op.Line + "\n"}
+		for _, l := range more {
+			parts[0] += l + "\n" // one Write call carrying several lines
+		}
 		if op.Chunks {
 			parts = []string{op.Line, "\n"}
 		}
